@@ -87,6 +87,7 @@ def main():
     ap.add_argument('--only', default='seeded,refactor,equivalent')
     ap.add_argument('--ids', default='')
     ap.add_argument('--target-only', action='store_true')
+    ap.add_argument('--newest-first', action='store_true')
     a = ap.parse_args()
     global TARGET_ONLY
     TARGET_ONLY = a.target_only
@@ -97,6 +98,8 @@ def main():
         jobs += [(job_seeded, s) for s in sorted(os.listdir(S.SEEDED)) if os.path.exists(os.path.join(S.SEEDED, s, 'patch.diff')) and (not ids or s in ids)]
     if 'refactor' in which:
         jobs += [(job_refactor, r) for r in sorted(os.listdir(S.REFAC)) if os.path.exists(os.path.join(S.REFAC, r, 'patch.diff')) and (not ids or r in ids)]
+    if a.newest_first:
+        jobs.reverse()
     if 'equivalent' in which:
         # fixtures/mutants.py and tools/mutants.py share a module name: load the fixture list by path
         import importlib.util
